@@ -21,9 +21,27 @@ Lemma checked_enc_run o accept r :
   checked_enc o accept r = match r with Ok its => checked o (accept (emit its)) r | _ => r end.
 Proof. destruct r; reflexivity. Qed.
 
-(* MapSeq.Xml as written: an acceptor that accepts the empty document never rejects anything *)
-Lemma check_at_empty_vacuous_l o accept r : accept [] = true -> checked_at_empty o accept r = r.
-Proof. intro A. unfold checked_at_empty. destruct r; try reflexivity. rewrite A, andb_false_r. reflexivity. Qed.
+(* the check on the bytes of any encoder *)
+Lemma checked_bytes_sound_l o (accept : str -> bool) r b :
+  xmlCheckIsValid o = true -> checked_bytes o accept r = Ok b -> accept b = true.
+Proof.
+  intros Hc. unfold checked_bytes. destruct r as [b'|e|]; try discriminate. rewrite Hc. cbn [andb].
+  destruct (accept b') eqn:A; cbn [negb]; [|discriminate]. intro E. injection E as <-. exact A.
+Qed.
+Lemma checked_enc_bytes o accept r :
+  match checked_enc o accept r with Ok its => Ok (emit its) | Err e => Err e | Panic => Panic end =
+  checked_bytes o accept (match r with Ok its => Ok (emit its) | Err e => Err e | Panic => Panic end).
+Proof.
+  unfold checked_enc, checked_bytes. destruct r as [its|e|]; try reflexivity.
+  destruct (xmlCheckIsValid o && negb (accept (emit its))); reflexivity.
+Qed.
+(* the two Map encoders of Model/XmlEnc.v *)
+Lemma map_xml_checked_sound_l o accept m root its :
+  xmlCheckIsValid o = true -> checked_enc o accept (map_xml_items o m root) = Ok its -> accept (emit its) = true.
+Proof. apply checked_sound_l. Qed.
+Lemma map_xml_indent_checked_sound_l o accept m root its :
+  xmlCheckIsValid o = true -> checked_enc o accept (map_xml_indent_items o m root) = Ok its -> accept (emit its) = true.
+Proof. apply checked_sound_l. Qed.
 
 (* ---------------- XMLEscapeChars / XMLEscapeCharsDecoder never both on ---------------- *)
 Definition esc_inv (o : opts) : Prop := xmlEscapeChars o && xmlEscapeCharsDecoder o = false.
